@@ -55,9 +55,103 @@ def norm_hist(h):
     return out
 
 
+UNIT_VALS = {'%': [0, 1, 2, 3, 7, -3, 100, 255, 12345, -32767, 32767],
+             '&': [0, 1, 2, 3, -3, 70000, -70000, 65536, 2147483647, -2147483647],
+             '!': [0.0, 0.5, 1.5, 2.5, -2.5, 3.0, 0.1, 100.25, 16777216.0, 1e10, -1e-3],
+             '#': [0.0, 0.5, 1.5, 2.5, -2.5, 3.0, 0.1, 100.25, 1e15, 123456789.125, -1e-9],
+             '$': ['', 'a', 'Hello', 'abc def', '12', ' x ', 'ABCDEFGHIJKLMNO']}
+UNIT_BIN = ['+', '-', '*', '/', '\\', 'MOD', '=', '<>', '<', '>', '<=', '>=', 'AND', 'OR', 'XOR', 'EQV', 'IMP']
+UNIT_FUNCS = [('ABS', 'n'), ('CINT', 'n'), ('CLNG', 'n'), ('INT', 'n'), ('STR$', 'i'), ('NOT', 'n'), ('NEG', 'n'), ('LEN', 's'),
+              ('ASC', 's'), ('UCASE$', 's'), ('LCASE$', 's'), ('LTRIM$', 's'), ('RTRIM$', 's'), ('VAL', 's'), ('CHR$', 'c'),
+              ('SPACE$', 'c'), ('LEFT$', 'sn'), ('RIGHT$', 'sn'), ('MID$', 'sn'), ('MID$3', 'snn'), ('INSTR', 'ss'),
+              ('INSTR3', 'nss'), ('STRING$', 'nc'), ('STRING$s', 'ns')]
+
+
+def unit_program(r, k):
+    """A small IR program: operands in variables of every type, one operator or builtin per statement, used both as a
+    PRINT argument and in typed contexts (assignment to every numeric type, argument of a SUB, array index)."""
+    def lit(t, v):
+        if t == '$':
+            return ('lit', '$', v)
+        e = ('lit', t, abs(v))
+        return ('un', '-', e) if v < 0 else e
+    main = []
+    vars_ = {}
+    for t in '%&!#$':
+        for i in range(2):
+            nm = f'zu{"ilsdt"["%&!#$".index(t)]}{i}{t}'
+            v = r.choice(UNIT_VALS[t])
+            main.append(['let', ('var', nm, t), lit(t, v), False])
+            vars_.setdefault(t, []).append(('var', nm, t))
+    main.append(['dim', 'dim', 'zuarr', '&', [(None, ('lit', '%', 5))]])
+    stmts = []
+    for _ in range(6):
+        kind = r.random()
+        if kind < 0.55:
+            op = r.choice(UNIT_BIN)
+            ta, tb = r.choice('%&!#'), r.choice('%&!#')
+            if op == '/' and '&' in (ta, tb):
+                ta = tb = r.choice('%!#')          # LONG division result type is a dialect grey zone
+            e = ('bin', op, r.choice(vars_[ta]), r.choice(vars_[tb]))
+        elif kind < 0.65:
+            op = r.choice(['+', '=', '<>', '<', '>', '<=', '>='])
+            e = ('bin', op, r.choice(vars_['$']), r.choice(vars_['$']))
+        else:
+            f, sig = r.choice(UNIT_FUNCS)
+            args = []
+            for ch in sig:
+                if ch == 'n':
+                    args.append(r.choice(vars_[r.choice('%&!#')]))
+                elif ch == 'i':
+                    args.append(r.choice(vars_[r.choice('%&')]))
+                elif ch == 's':
+                    args.append(r.choice(vars_['$']))
+                elif ch == 'c':
+                    args.append(('lit', '%', r.choice([0, 1, 3, 32, 65, 255])))
+            if f == 'NOT':
+                e = ('un', 'NOT', args[0])
+            elif f == 'NEG':
+                e = ('un', '-', args[0])
+            elif f in ('LEFT$', 'RIGHT$', 'MID$'):
+                e = ('bcall', f, [args[0], ('bin', 'MOD', ('bcall', 'ABS', [args[1]]), ('lit', '%', 9))] if False else
+                     [args[0], ('lit', '%', r.choice([0, 1, 2, 5, 20]))] if f != 'MID$' else [args[0], ('lit', '%', r.choice([1, 2, 5, 20]))])
+            elif f == 'MID$3':
+                e = ('bcall', 'MID$', [args[0], ('lit', '%', r.choice([1, 2, 4])), ('lit', '%', r.choice([0, 1, 3, 20]))])
+            elif f == 'INSTR3':
+                e = ('bcall', 'INSTR', [('lit', '%', r.choice([1, 2, 3])), args[1], args[2]])
+            elif f == 'STRING$':
+                e = ('bcall', 'STRING$', [('lit', '%', r.choice([0, 1, 3])), args[1]])
+            elif f == 'STRING$s':
+                e = ('bcall', 'STRING$', [('lit', '%', r.choice([0, 1, 3])), args[1]])
+            else:
+                e = ('bcall', f, args)
+        from ..gen.ir import etype
+        t = etype(e)
+        stmts.append(['print', [['e', e]]])
+        pe = ('par', e)          # the renderer does not parenthesise by precedence
+        if t != '$':
+            tt = r.choice('%&!#')
+            tgt = ('var', f'zur{"ilsd"["%&!#".index(tt)]}{tt}', tt)
+            stmts.append(['let', tgt, e, False])
+            stmts.append(['print', [['e', ('bin', '+', tgt, ('lit', '%', 1))]]])
+            if r.random() < 0.4:
+                stmts.append(['call', 'zusub', [pe], False])
+            if r.random() < 0.3:
+                stmts.append(['let', ('elem', 'zuarr', '&', [('bin', 'MOD', ('bcall', 'ABS', [('bcall', 'CLNG', [('bin', 'MOD', pe, ('lit', '%', 5))])]), ('lit', '%', 5))]), ('lit', '&', 7), False])
+        else:
+            stmts.append(['let', ('var', 'zurt$', '$'), ('bin', '+', pe, ('lit', '$', '!')), False])
+            stmts.append(['print', [['e', ('var', 'zurt$', '$')]]])
+    procs = [{'kind': 'sub', 'name': 'zusub', 'rtype': None, 'params': [('zp#', '#', 0)], 'pstyle': [False], 'static': False,
+              'body': [['print', [['e', ('bin', '*', ('var', 'zp#', '#'), ('lit', '%', 2))]]]]}]
+    return {'deftype': None, 'types': [], 'main': main + stmts, 'procs': procs, 'features': ['unit']}
+
+
 def gen_cases(tier, seed):
     n = 130 if tier == 'quick' else 2500
     cs = []
+    nu = 120 if tier == 'quick' else 3000
+    for i in range(nu):
+        cs.append({'unit': True, 'seed': seed * 100003 + 500000 + i, 'k': i, 'nscripts': 1})
     for i in range(n):
         big = (i % 3 == 0)
         cs.append({'seed': seed * 100003 + i, 'k': i,
@@ -102,17 +196,23 @@ def classify(exp_ev, got_ev):
 
 
 def run_case(case):
-    st = {'programs': 0, 'runs_compared': 0, 'events_compared': 0, 'typed_print_items': 0, 'error_outcomes_compared': 0,
+    st = {'unit_programs': 1 if case.get('unit') else 0, 'programs': 0, 'runs_compared': 0, 'events_compared': 0, 'typed_print_items': 0, 'error_outcomes_compared': 0,
           'trap_lines_compared': 0, 'rejected': 0, 'ref_script_exhausted': 0, 'features': [], 'error_kinds': []}
     viol = []
-    prog = progs.gen_program(case['seed'], **case['opts'])
+    if case.get('unit'):
+        import random as _random
+        prog = unit_program(_random.Random(case['seed']), case['k'])
+        cfgs = [rt.CONFIGS6[case['k'] % 6], rt.CONFIGS6[(case['k'] + 3) % 6]]
+    else:
+        prog = progs.gen_program(case['seed'], **case['opts'])
+        cfgs = rt.CONFIGS6
     text, rr = render.render(prog)
     st['features'] = prog['features']
     shape = shape_of(text)
     nontrivial = False
     sample = None
     compiled = {}
-    for cfg in rt.CONFIGS6:
+    for cfg in cfgs:
         c = rt.compile_src(text, cfg[0], cfg[1])
         compiled[cfg] = c
     bad = [(cfg, c) for cfg, c in compiled.items() if c.status != 'ok']
@@ -151,7 +251,7 @@ def run_case(case):
                 exp_line = rr.stmt_line.get((es[0], id(es[1])) + tuple(es[2:]))
             else:
                 exp_line = rr.stmt_line.get(id(es))
-        for cfg in rt.CONFIGS6:
+        for cfg in cfgs:
             mod = rt.load_module(compiled[cfg].modbytes)
             run = rt.run_module(mod, script, max_ticks=400000)
             if run.outcome[0] == 'tick_budget':
